@@ -7,7 +7,7 @@ LEVEL = "proof"
 COQ_IMPORTS = ["Tie.C07"]
 RULE = ("feature-rich references: 2D L-shapes, notched rectangles and irregular convex polygons (closed curves), 3D boxes and stepped prisms; "
         "20-60 sample points; displacements inside the basin (up to 10% of the size and 15 degrees; recovery is demanded when at the starting guess no sample point is farther than 5% of the smallest feature from where it was sampled - half of the basin cases are generated that deep) and, for the residual-honesty "
-        "clause, also far outside it; initial guesses at the identity and within the basin; in 40% of the cases the scanned points are moved further by an arbitrary rigid motion (up to 100 feature sizes) that the guess undoes, so the guess is equally close to the answer but the points are far from the reference frame; both distance modes. distinct = distinct (tag, input)")
+        "clause, also far outside it; initial guesses at the identity and within the basin, including guesses that are exactly the answer (every residual exactly zero; a uniformly oversize part in place, residuals orthogonal to the Jacobian); in 40% of the cases the scanned points are moved further by an arbitrary rigid motion (up to 100 feature sizes) that the guess undoes, so the guess is equally close to the answer but the points are far from the reference frame; both distance modes. distinct = distinct (tag, input)")
 TRUSTED_BASE = [
     "Coq 8.16.1 kernel and vm_compute",
     "hand-written model coq/Model/LsqProblem.v of the two LeastSquaresProblem implementations as state machines over (parameters, moved points, closest points) with the closest-point query and the parameter-to-transform map as parameters (C02, C08)",
@@ -21,7 +21,7 @@ ASSUMPTIONS = [
 
 
 # smallest feature of each reference shape, in units of its size parameter
-FEATURE = {"lshape": 1.0, "notched": 0.8, "irregular": 0.8, "box": 2.0, "stepped": 1.0}
+FEATURE = {"lshape": 1.0, "notched": 0.8, "irregular": 0.8, "box": 2.0, "stepped": 1.0, "rect": 2.0}
 
 
 def lshape(s):
@@ -60,6 +60,30 @@ def gen_curve(rng):
     if rng.random() < 0.4:      # the scanned points sit far from the reference frame; the guess undoes that, so it is as close to the answer as before
         c["pre"] = [rng.uniform(-100, 100) * s, rng.uniform(-100, 100) * s, rng.uniform(-3, 3)]
     return c
+
+
+def gen_curve_exact(rng):
+    """the starting guess is exactly the answer: either every residual is exactly zero (points on axis-parallel edges of an
+    undisplaced reference) or the residuals are orthogonal to the Jacobian (a uniformly oversize part sitting in place)"""
+    s = rng.choice([0.5, 1.0, 10.0])
+    if rng.random() < 0.5:
+        kind = rng.choice(["lshape", "notched"])
+        ref = [[float(x), float(y)] for x, y in (lshape(s) if kind == "lshape" else notched(s))]
+        pts = []
+        for _ in range(rng.choice([12, 24])):
+            i = rng.randrange(len(ref))
+            a, b = ref[i], ref[(i + 1) % len(ref)]
+            f = rng.choice([0.25, 0.5, 0.75, 0.125, 0.375])
+            pts.append([a[0] + (b[0] - a[0]) * f, a[1] + (b[1] - a[1]) * f])
+        return {"k": "c07.curve", "ref": ref, "fs": [], "pts": pts, "disp": [0.0, 0.0, 0.0], "init": [0.0, 0.0, 0.0], "basin": True, "deep": True, "kind": kind, "size": s, "exact": "zero"}
+    a, b, d = 2.0 * s, 1.0 * s, 0.01 * s
+    ref = [[-a, -b], [a, -b], [a, b], [-a, b]]
+    pts = []
+    for x in (0.25 * a, 0.5 * a, 0.75 * a):
+        pts += [[x, b + d], [-x, b + d], [x, -b - d], [-x, -b - d]]
+    for y in (0.25 * b, 0.5 * b):
+        pts += [[a + d, y], [a + d, -y], [-a - d, y], [-a - d, -y]]
+    return {"k": "c07.curve", "ref": ref, "fs": [], "pts": pts, "disp": [0.0, 0.0, 0.0], "init": [0.0, 0.0, 0.0], "basin": True, "deep": True, "kind": "rect", "size": s, "exact": "oversize"}
 
 
 def box_mesh(w):
@@ -124,13 +148,13 @@ def corpus():
 
 def generate(rng, tier):
     n = 120 if tier == "quick" else 1600
-    return [gen_curve(rng) for _ in range(n)] + [gen_mesh(rng) for _ in range(n // 2)]
+    return [gen_curve(rng) for _ in range(n)] + [gen_curve_exact(rng) for _ in range(n // 10)] + [gen_mesh(rng) for _ in range(n // 2)]
 
 
 def tag(c, r):
     res = r.get("result", {})
     st = "err" if res.get("err") else "panic" if res.get("panic") else "ok"
-    return "%s:%s:%s:%s%s:%s" % (c["k"], c["kind"], c.get("mode", "-"), ("deep" if c.get("deep") else "basin") if c["basin"] else "far", "+pre" if "pre" in c else "+gimbal" if "pre_inv_euler" in c else "", st)
+    return "%s:%s:%s:%s%s:%s" % (c["k"], c["kind"], c.get("mode", "-"), ("exact-" + c["exact"] if c.get("exact") else "deep" if c.get("deep") else "basin") if c["basin"] else "far", "+pre" if "pre" in c else "+gimbal" if "pre_inv_euler" in c else "", st)
 
 
 def T(p):
